@@ -21,17 +21,17 @@ package rosmar
 
 // Generic clauses of every mutating entry point (G1..G8 of DESIGN.md 2.5). `r`/`r2` are the addressed row before/after.
 //@ template mutator
-//@   ensures [C01:$fn.err-unchanged]   err != nil ==> db == old(db)
-//@   ensures [C08:$fn.err-noevent]     err != nil ==> lenlist(posted) == 0
+//@   ensures [C01:$fn.err-unchanged]   $err != nil ==> db == old(db)
+//@   ensures [C08:$fn.err-noevent]     $err != nil ==> lenlist(posted) == 0
 //@   ensures [C05,C06:$fn.docinv]          DocInv(r2)
 //@   ensures [C11:$fn.frame]           forall o: DocId :: o != mkId(c.id, key) ==> docAt(o) == old(docAt(o))
 //@   ensures [C11:$fn.scoped]          stmtsScoped(c.id)
 //@   ensures [C03,C10:$fn.onetxn]      oneTxn() && sqlAllInTxn() && lockedThroughout("c.bucket.mutex")
-//@   ensures [C10:$fn.commit-first]    err == nil && db != old(db) ==> committed
+//@   ensures [C10:$fn.commit-first]    $err == nil && db != old(db) ==> committed
 //@   ensures [C04:$fn.cas-fresh]       r2 != r ==> r2.cas == newCas && newCas > old(hlc.highestTime) && casDrawnInTxn()
 //@   ensures [C04,C10,C12:$fn.lastcas] r2 != r ==> bucketLastCas == newCas && collLast(c.id) == newCas
 //@   ensures [C17:$fn.rev]             r2 != r ==> r2.rev == nextrev(r)
-//@   ensures [C08:$fn.event]           err == nil && r2 != r ==> lenlist(posted) == 1 && posted[0] == eventOf(key, r2) && postsAfterCommit()
+//@   ensures [C08:$fn.event]           $err == nil && r2 != r ==> lenlist(posted) == 1 && posted[0] == eventOf(key, r2) && postsAfterCommit()
 //@   ensures [C08:$fn.noevent]         r2 == r ==> lenlist(posted) == 0
 //@   ensures [C20:$fn.unlocked]        any: nolocks()
 //@ end
@@ -90,7 +90,7 @@ package rosmar
 //@   requires DocInv(r) && HlcInv(r)
 //@   requires !isnull(val)
 //@   requires IntOK(r)
-//@   use mutator
+//@   use mutator err=err
 //@   ensures [C06:add.iff]      err == nil ==> (added <==> !hasBody(r))
 //@   ensures [C06:add.refused]  err == nil && !added ==> docs == old(docs)
 //@   ensures [C01,C06,C14:add.created] err == nil && added ==> sameDoc(r2, BODY(r, val, b2i(isJSON), absexp(exp, now), newCas))
@@ -103,7 +103,7 @@ package rosmar
 //@   requires DocInv(r) && HlcInv(r)
 //@   requires !isnull(val)
 //@   requires IntOK(r)
-//@   use mutator
+//@   use mutator err=err
 //@   ensures [C01,C14:set.stored] err == nil ==> sameDoc(r2, BODY(r, val, b2i(isJSON), (if keep then r.exp else absexp(exp, now)), newCas))
 //@
 //@ fn (*Collection).remove
@@ -111,7 +111,7 @@ package rosmar
 //@   let r2 = doc(c.id, key)
 //@   requires DocInv(r) && HlcInv(r)
 //@   requires IntOK(r)
-//@   use mutator
+//@   use mutator err=err
 //@   ensures [C02:remove.necessary] err == nil ==> r.present && (ifCas == nil || *ifCas == r.cas)
 //@   ensures [C02:remove.rejected]  ifCas != nil && r.present && *ifCas != r.cas ==> err != nil && db == old(db) && (iscasmismatch(err) || isdberr(err) || isclosed(err))
 //@   ensures [C01,C05,C14:remove.tombstone] err == nil ==> r2.present && isnull(r2.value) && r2.tombstone == 1 && r2.exp == 0 && r2.isJSON == 0 && r2.cas == newCas && casOut == newCas
@@ -139,7 +139,7 @@ package rosmar
 //@   let r2 = doc(c.id, key)
 //@   requires DocInv(r) && HlcInv(r)
 //@   requires IntOK(r)
-//@   use mutator
+//@   use mutator err=err
 //@   ensures [C01,C14:incr.stored] err == nil ==> r2.present && !isnull(r2.value) && r2.isJSON == 1 && r2.tombstone == 0 && r2.exp == absexp(exp, now) && r2.cas == newCas
 //@   ensures [C03:incr.default]    err == nil && !hasBody(r) ==> result == deflt
 //@   ensures [C07:incr.xattrs]     err == nil ==> r2.xattrs == (if hasBody(r) then r.xattrs else NULL)
@@ -158,7 +158,7 @@ package rosmar
 //@   requires DocInv(r) && HlcInv(r)
 //@   requires IntOK(r)
 //@   requires opt >= 0 && opt < 32
-//@   use mutator
+//@   use mutator err=err
 //@   ensures [C02:WriteCas.cas-necessary]  err == nil && !ins ==> r.present && cas == r.cas
 //@   ensures [C02:WriteCas.cas-rejected]   !ins && r.present && cas != r.cas ==> err != nil && db == old(db)
 //@   ensures [C02:WriteCas.cas-class]      !ins && r.present && cas != r.cas && count("sql") >= 2 ==> iscasmismatch(err) || ismissing(err) || iskeyexists(err) || isdberr(err)
@@ -603,3 +603,28 @@ package rosmar
 //@   nullable opts
 //@   ensures [C02,C05:UpdateXattrDeleteBody.delegates] count("call:Collection.writeWithXattrs") == 1 && callarg("Collection.writeWithXattrs", 1) == key && *callarg("Collection.writeWithXattrs", 4) == cas && *callarg("Collection.writeWithXattrs", 5) == exp && callarg("Collection.writeWithXattrs", 0) == c && callarg("Collection.writeWithXattrs", 7) == opts && pnil(*callarg("Collection.writeWithXattrs", 2))
 //@   ensures [C05:UpdateXattrDeleteBody.result] casOut == callret("Collection.writeWithXattrs", 0) && err == callret("Collection.writeWithXattrs", 1)
+//@
+//@ fn removeXattrs
+//@   requires validX(rawXattrs)
+//@   loop 1001 invariant [C07:removeXattrs.only-removes] forall k: Str :: xattrs[k] == NOX || xattrs[k] == atentry(xattrs[k])
+//@   loop 1001 body [C07:removeXattrs.one-per-key] iter("mapdelete") <= 1
+//@   ensures [C07:removeXattrs.never-adds] forall k: Str :: xget(rawResult, k) == NOX || xget(rawResult, k) == xget(rawXattrs, k)
+//@   ensures [C05,C07:removeXattrs.valid]  validX(rawResult) && (isnull(rawXattrs) ==> isnull(rawResult))
+//@
+//@ fn (*Collection).DeleteWithXattrs
+//@   let r = old(doc(c.id, key))
+//@   let r2 = doc(c.id, key)
+//@   requires DocInv(r) && HlcInv(r) && IntOK(r)
+//@   use mutator err=result
+//@   ensures [C01,C05,C14:DeleteWithXattrs.tombstone] result == nil ==> r.present && isnull(r2.value) && r2.tombstone == 1 && r2.exp == 0 && r2.isJSON == 0
+//@   ensures [C07:DeleteWithXattrs.xattrs-only-removed] result == nil ==> forall k: Str :: xget(r2.xattrs, k) == NOX || xget(r2.xattrs, k) == xget(r.xattrs, k)
+//@   ensures [C01:DeleteWithXattrs.missing] !r.present ==> result != nil
+//@
+//@ fn (*Collection).DeleteSubDocPaths
+//@   let r = old(doc(c.id, key))
+//@   let r2 = doc(c.id, key)
+//@   requires DocInv(r) && HlcInv(r) && IntOK(r)
+//@   use mutator err=result
+//@   ensures [C07:DeleteSubDocPaths.body-kept] result == nil ==> r.present && r2.value == r.value && r2.isJSON == r.isJSON && r2.exp == r.exp && r2.tombstone == r.tombstone
+//@   ensures [C07:DeleteSubDocPaths.xattrs-only-removed] result == nil ==> forall k: Str :: xget(r2.xattrs, k) == NOX || xget(r2.xattrs, k) == xget(r.xattrs, k)
+//@   ensures [C01:DeleteSubDocPaths.missing] !r.present ==> result != nil
